@@ -611,4 +611,4 @@ pub enum BlockIoOpcode {
 
 #[cfg(kani)]
 #[path = "/verif/hooks/z80/registers.rs"]
-mod verif_hooks;
+pub(crate) mod verif_hooks;
